@@ -207,6 +207,8 @@ def attribute(E, e):
     d = dotted(e)
     if d is not None and d in E.c.externals and _root(e).id not in st.vars:
         return V("fn", None, items=("external", d, None, None, None), py=d)
+    if d is not None and d in E.c.d.get("consts", {}) and _root(e).id not in st.vars:
+        return E.ev(ast.Constant(E.c.d["consts"][d]))
     if d is not None and e.value.__class__ is ast.Name and e.value.id not in st.vars:
         # module attribute
         base = global_name(E, e.value.id)
@@ -1333,6 +1335,8 @@ def external_call(E, name, ext, e, recv=None, args=None, kwargs=None):
         oc = outcomes[k]
     else:
         oc = {"returns": ext.get("returns", "none"), "ensures": ext.get("ensures", [])}
+    if oc.get("finding"):
+        E.path_tags.add(oc["finding"])
     ev_args = ([recv] if recv is not None and ext.get("event_recv") else []) + list(args) + [kwargs[k_] for k_ in ext.get("event_kwargs", []) if k_ in kwargs]
     if oc.get("raises"):
         cls = canon_class(E, oc["raises"])
@@ -1683,6 +1687,8 @@ def container_method(E, recv, name, e):
                 dflt = V("any", atom("{}"))  # the empty dict literal as default: a distinguished value without keys
             if dflt.ty in ("none", "any", "str"):
                 return V("any", z3.If(has, val.z, dflt.z if dflt.ty != "none" else z3.IntVal(0)))
+            if dflt.ty == "bool":
+                return V("any", z3.If(has, val.z, z3.If(dflt.z, atom("py:True"), atom("py:False"))))
             raise NeedFork() if st.pure else OutOfSubset("any.get with typed default")
         raise OutOfSubset(f"method {name} on any")
     raise OutOfSubset(f"method {name} on {t}")
